@@ -392,7 +392,7 @@ func runC01(c *Ctx) {
 		// callers of Update
 		eachInstr(fn, func(in ssa.Instruction) {
 			if staticCallee(in) == update {
-				ok := fn == newCell || fn == updateCache
+				ok := fn == newCell || fn == updateCache || guardedByField(in, mustCalc) || allCallersGuarded(c, fn, mustCalc)
 				r.Check("R01.6", FuncName(fn), "call to (*Cell).Update", in.Pos(), ok, "Update is re-run implicitly; the cell's text must be a snapshot until the caller asks for an update")
 			}
 		})
@@ -432,14 +432,26 @@ func runC01(c *Ctx) {
 		for i, ret := range returnsOf(fn) {
 			v := results(ret)[0]
 			fl, _ := loadedField(v)
+			if fv, isF := v.(*ssa.Field); isF {
+				// the field of a cell value handed back by an unexported helper applied to the receiver
+				if call, isCall := fv.X.(*ssa.Call); isCall && call.Call.StaticCallee() != nil && inModule(call.Call.StaticCallee()) && len(call.Call.Args) > 0 && isRecvValue(fn, call.Call.Args[0]) {
+					fl = fieldOfField(fv)
+				}
+			}
 			r.Check("R01.6", FuncName(fn), fmt.Sprintf("return #%d is the cached %s of a cell", i+1, acc.f.Name()), ret.Pos(), fl == acc.f, v.String())
 		}
 	}
 	if emptyFn := c.Method(cell, true, "Empty"); emptyFn != nil {
 		for i, ret := range returnsOf(emptyFn) {
-			v := results(ret)[0]
-			k, isC := constBool(v)
-			ok := recvFieldRead(emptyFn, v, empty) || (isC && k)
+			ok := true
+			var v ssa.Value
+			for _, v = range phiClosure(results(ret)[0]) {
+				k, isC := constBool(v)
+				if !(recvFieldRead(emptyFn, v, empty) || (isC && k)) {
+					ok = false
+					break
+				}
+			}
 			r.Check("R01.6", FuncName(emptyFn), fmt.Sprintf("return #%d is the cached flag (or true for a nil cell)", i+1), ret.Pos(), ok, v.String())
 		}
 	}
@@ -885,4 +897,60 @@ func c01ItemsReachCells(c *Ctx, rule string) {
 		})
 	}
 	r.Floor(rule, "item-to-cell conversions in the variadic builders", n, 1)
+}
+
+// guardedByField: the instruction runs only where a (true) test of boolean field f dominates it.
+func guardedByField(in ssa.Instruction, f *types.Var) bool {
+	for _, cf := range expandConds(dominatingConds(in.Block())) {
+		if fl, _ := loadedField(cf.Cond); fl == f && cf.Val {
+			return true
+		}
+	}
+	return false
+}
+
+// allCallersGuarded: fn is unexported, is called somewhere in the module, and every such call is under a test of f.
+func allCallersGuarded(c *Ctx, fn *ssa.Function, f *types.Var) bool {
+	if fn.Object() == nil || fn.Object().Exported() {
+		return false
+	}
+	n, ok := 0, true
+	for _, g := range c.LibFuncs() {
+		eachInstr(g, func(in ssa.Instruction) {
+			if staticCallee(in) == fn {
+				n++
+				if !guardedByField(in, f) {
+					ok = false
+				}
+			}
+		})
+	}
+	return ok && n > 0
+}
+
+// isRecvValue: v is fn's receiver (by value), or a load of / the address of its spill.
+func isRecvValue(fn *ssa.Function, v ssa.Value) bool {
+	if len(fn.Params) == 0 {
+		return false
+	}
+	recv := fn.Params[0]
+	for i := 0; i < 3; i++ {
+		if v == ssa.Value(recv) {
+			return true
+		}
+		switch x := v.(type) {
+		case *ssa.UnOp:
+			v = x.X
+		case *ssa.Alloc:
+			for _, rr := range referrersOf(x) {
+				if st, ok := rr.(*ssa.Store); ok && st.Addr == ssa.Value(x) && st.Val == ssa.Value(recv) {
+					return true
+				}
+			}
+			return false
+		default:
+			return false
+		}
+	}
+	return false
 }
